@@ -1179,7 +1179,69 @@ fn c07_client_case(rtu: bool, level: (u8, u8, u8), req: &Req, stream: &[u8], tai
     }
 }
 
+/// request with `timeout` ms outstanding; a stale (other transaction id) frame every `gap` ms
+pub fn c07_drip(level: (u8, u8, u8), timeout: u64, gap: u64, rounds: usize) -> Vec<(String, String)> {
+    let mut out = vec![];
+    let req = Req::ReadRegs { fc: 3, start: 0, count: 2 };
+    let mut h = ClientSessionHarness::new(false, decode_level(level), None, 16);
+    h.settle();
+    let id = match h.submit(&req, 1, timeout, Style::Future) {
+        Ok(id) => id,
+        Err(e) => return vec![("MACHINERY:request-rejected".into(), format!("{e:?}"))],
+    };
+    h.settle();
+    h.io.take_written();
+    let (good, _) = good_reply(&req);
+    let mut elapsed = 0u64;
+    let mut completed_at: Option<u64> = None;
+    for k in 0..rounds {
+        h.io.deliver(&mbap_frame(0x4000 + k as u16, 1, &good));
+        if !h.settle() {
+            return vec![("busy-loop".into(), "poll budget exceeded".into())];
+        }
+        crate::sim::advance(gap);
+        elapsed += gap;
+        h.settle();
+        if let Some(p) = &h.task.panicked {
+            return vec![("panic".into(), p.clone())];
+        }
+        for (i, o, at) in h.take_done() {
+            if i == id && completed_at.is_none() {
+                completed_at = Some(at);
+                if o != Outcome::Err(ErrClass::Timeout) {
+                    out.push(("drip-result".into(), format!("request completed with {o:?}")));
+                }
+            }
+        }
+    }
+    match completed_at {
+        None if elapsed > timeout => out.push(("request-kept-pending-by-stale-frames".into(), format!("still pending {elapsed} ms after transmission (timeout {timeout} ms)"))),
+        // (the exact instant is C12's business: here the clock moves in steps of `gap`)
+        Some(at) if at > timeout + gap => out.push(("request-kept-pending-by-stale-frames".into(), format!("timed out only at {at} ms (timeout {timeout} ms)"))),
+        _ => {}
+    }
+    // the task must still honour shutdown
+    let ch = h.channel.clone().unwrap();
+    let mut t = Task::new(async move {
+        let _ = ch.shutdown().await;
+    });
+    t.poll_if_woken();
+    h.settle();
+    if !h.task.is_done() {
+        crate::sim::advance(timeout + 1);
+        h.settle();
+    }
+    if !h.task.is_done() {
+        out.push(("shutdown-ignored".into(), "client task did not end after shutdown".into()));
+    }
+    out
+}
+
 pub fn replay_c07(v: &serde_json::Value) -> Vec<(String, String)> {
+    if v["kind"] == "c07-drip" {
+        let level: (u8, u8, u8) = serde_json::from_value(v["level"].clone()).unwrap();
+        return c07_drip(level, v["timeout"].as_u64().unwrap(), v["gap"].as_u64().unwrap(), v["rounds"].as_u64().unwrap() as usize);
+    }
     let stream = from_hex(v["stream"].as_str().unwrap());
     let cuts: Vec<usize> = v["cuts"].as_array().unwrap().iter().map(|x| x.as_u64().unwrap() as usize).collect();
     let tail: Tail = serde_json::from_value(v["tail"].clone()).unwrap();
@@ -1366,9 +1428,26 @@ pub fn check_c07(tier: &str) -> i32 {
         c07_server_case(false, (3, 2, 2), &long, Tail::Eof, &cuts, &mut st);
     }
     rep.phase("long streams", st, json!({"bytes": long.len()}));
+    // a peer that keeps sending well-formed frames which are not the awaited reply must not keep
+    // a request (and with it the whole task: queued requests, disable, shutdown) pending
+    let mut st = Stats::default();
+    for level in [(0u8, 0u8, 0u8), (3, 2, 2)] {
+        for (timeout, gap, rounds) in [(10u64, 6u64, 8usize), (10, 9, 5), (3, 2, 12), (50, 49, 4)] {
+            st.evaluations += 1;
+            st.class("client-dripped-stale-frames");
+            st.observe(&(level, timeout, gap, rounds));
+            let describe = || ("c07-drip".to_string(), format!("timeout {timeout} gap {gap}"), json!({"kind": "c07-drip", "level": level, "timeout": timeout, "gap": gap, "rounds": rounds}));
+            let problems = crate::sim::watchdog::guard(&describe, || c07_drip(level, timeout, gap, rounds));
+            for (sig, desc) in problems {
+                st.violation(Violation { signature: sig, summary: format!("level {level:?}, request timeout {timeout} ms, a stale frame every {gap} ms x{rounds}: {desc}"), replay: json!({"kind": "c07-drip", "level": level, "timeout": timeout, "gap": gap, "rounds": rounds}) });
+            }
+        }
+    }
+    st.sample(json!({"scenario": "stale frame every g ms while a request with timeout t > g is outstanding"}));
+    rep.phase("client: dripped stale frames", st, json!({}));
     let (events, bytes) = crate::sim::trace::take_counts();
     let _ = (events, bytes);
-    for c in ["server-session-ends-with-error", "server-session-continues", "client-request-completes", "client-session-ends-with-error", "client-keeps-waiting"] {
+    for c in ["client-dripped-stale-frames", "server-session-ends-with-error", "server-session-continues", "client-request-completes", "client-session-ends-with-error", "client-keeps-waiting"] {
         rep.require_class(c);
     }
     rep.exhaustive = true;
